@@ -2,7 +2,7 @@ import OntVerif.Model.ConnCtl
 /-!
 # Invariant of the repaired connection controller (C36)
 
-`InvC` is the inductive invariant of `step .sound`: established + reserved slots (+1 while a passed check holds
+`InvC` is the inductive invariant of `step` (both variants of the stale-close behaviour): established + reserved slots (+1 while a passed check holds
 `reserveMu` and has not yet recorded its reservation) never exceed the limits, in total per direction and per remote
 ip; every thread in its handshake owns a reservation and no two of them share an address.  `step_sound_inv` shows
 that every atomic action of every thread preserves it — hence it holds after every schedule.
@@ -405,23 +405,30 @@ theorem InvC.leaveHs (h : InvC c ths b p l) (ht : ths[i]? = some t) (hpc : t.pc 
 
 def Inv (s : State) : Prop := InvC s.cfg s.threads s.bound s.pend s.lock
 
-@[simp] theorem release_cfg (v : Variant) (s : State) (d : Dir) (a : Addr) : (release v s d a).cfg = s.cfg := by
-  cases v <;> cases d <;> rfl
-@[simp] theorem release_threads (v : Variant) (s : State) (d : Dir) (a : Addr) :
-    (release v s d a).threads = s.threads := by
-  cases v <;> cases d <;> rfl
-@[simp] theorem release_bound (v : Variant) (s : State) (d : Dir) (a : Addr) : (release v s d a).bound = s.bound := by
-  cases v <;> cases d <;> rfl
-@[simp] theorem release_lock (v : Variant) (s : State) (d : Dir) (a : Addr) : (release v s d a).lock = s.lock := by
-  cases v <;> cases d <;> rfl
-@[simp] theorem release_pend_sound (s : State) (d : Dir) (a : Addr) :
-    (release .sound s d a).pend = upd s.pend d (del a) := by
+@[simp] theorem release_cfg (s : State) (d : Dir) (a : Addr) : (release s d a).cfg = s.cfg := by
   cases d <;> rfl
-@[simp] theorem release_pend_asShipped (s : State) (d : Dir) (a : Addr) :
-    (release .asShipped s d a).pend = s.pend := by
+@[simp] theorem release_threads (s : State) (d : Dir) (a : Addr) : (release s d a).threads = s.threads := by
+  cases d <;> rfl
+@[simp] theorem release_bound (s : State) (d : Dir) (a : Addr) : (release s d a).bound = s.bound := by
+  cases d <;> rfl
+@[simp] theorem release_lock (s : State) (d : Dir) (a : Addr) : (release s d a).lock = s.lock := by
+  cases d <;> rfl
+@[simp] theorem release_pend (s : State) (d : Dir) (a : Addr) : (release s d a).pend = upd s.pend d (del a) := by
   cases d <;> rfl
 
-theorem check_sound_none {s : State} {t : Thread} (h : check .sound s t = none) :
+@[simp] theorem removePeer_cfg (s : State) (t : Thread) : (removePeer s t).1.cfg = s.cfg := by
+  unfold removePeer; cases peersGet s.peers t.pid <;> simp only [] <;> (try split) <;> rfl
+@[simp] theorem removePeer_threads (s : State) (t : Thread) : (removePeer s t).1.threads = s.threads := by
+  unfold removePeer; cases peersGet s.peers t.pid <;> simp only [] <;> (try split) <;> rfl
+@[simp] theorem removePeer_pend (s : State) (t : Thread) : (removePeer s t).1.pend = s.pend := by
+  unfold removePeer; cases peersGet s.peers t.pid <;> simp only [] <;> (try split) <;> rfl
+@[simp] theorem removePeer_lock (s : State) (t : Thread) : (removePeer s t).1.lock = s.lock := by
+  unfold removePeer; cases peersGet s.peers t.pid <;> simp only [] <;> (try split) <;> rfl
+@[simp] theorem removePeer_bound (s : State) (t : Thread) :
+    (removePeer s t).1.bound = upd s.bound t.dir (del t.addr) := by
+  unfold removePeer; cases peersGet s.peers t.pid <;> simp only [] <;> (try split) <;> rfl
+
+theorem check_none {s : State} {t : Thread} (h : check s t = none) :
     t.addr ∉ s.pend t.dir ∧ (s.bound t.dir).length + (s.pend t.dir).length < s.cfg.max t.dir ∧
     (t.dir = .inb → cnt t.ip (s.bound .inb) + cnt t.ip (s.pend .inb) < s.cfg.maxIp) := by
   unfold check at h
@@ -434,8 +441,8 @@ theorem check_sound_none {s : State} {t : Thread} (h : check .sound s t = none) 
   simp only [slots, ipSlots, ge_iff_le, Nat.not_le, not_and] at h3 h4
   refine ⟨?_, h3, h4⟩
   cases t.dir
-  · exact h1.2.1
-  · exact h1.2.2
+  · exact h1.1.2
+  · exact h1.2
 
 theorem leave_fail_len (p b : Dir → List Addr) (d : Dir) (a : Addr) (d' : Dir) :
     (b d').length + (upd p d (del a) d').length ≤ (b d').length + (p d').length := by
@@ -484,7 +491,7 @@ theorem upd_del_ins {p : Dir → List Addr} {d : Dir} {a : Addr} (h : a ∉ p d)
   · subst e; rw [upd_same, upd_same, del_ins_of_not_mem h]
   · rw [upd_other _ e, upd_other _ e]
 
-theorem step_sound_inv {s : State} (h : Inv s) (i : Nat) : Inv (step .sound s i) := by
+theorem step_inv (v : Variant) {s : State} (h : Inv s) (i : Nat) : Inv (step v s i) := by
   unfold step stepR
   cases ht : s.threads[i]? with
   | none => exact h
@@ -502,7 +509,7 @@ theorem step_sound_inv {s : State} (h : Inv s) (i : Nat) : Inv (step .sound s i)
           split
           · exact h.finish ht (Or.inl hpc) _ rfl rfl rfl
           · next hc =>
-            obtain ⟨c1, c2, c3⟩ := check_sound_none hc
+            obtain ⟨c1, c2, c3⟩ := check_none hc
             exact InvC.pass (l := s.lock) h ht hpc hl' c1 c2 c3 _ rfl rfl rfl rfl
     | checked =>
       simp only []
@@ -528,12 +535,12 @@ theorem step_sound_inv {s : State} (h : Inv s) (i : Nat) : Inv (step .sound s i)
       simp only []
       have hm := InvC.hsPend h i t ht hpc
       have hfail : ∀ s0 : State, s0.cfg = s.cfg → s0.threads = s.threads → s0.bound = s.bound → s0.pend = s.pend →
-          s0.lock = s.lock → Inv (setPc (release .sound s0 t.dir t.addr) i t .closed) := by
+          s0.lock = s.lock → Inv (setPc (release s0 t.dir t.addr) i t .closed) := by
         intro s0 e1 e2 e3 e4 e5
         have := InvC.leaveHs h ht hpc { t with pc := .closed } rfl rfl (Or.inl rfl) s.bound
           (leave_fail_len _ _ _ _) (leave_fail_cnt _ _ _ _)
         simp only [Inv, setPc, setThread, release_cfg, release_threads, release_bound, release_lock,
-          release_pend_sound, e1, e2, e3, e4, e5]
+          release_pend, e1, e2, e3, e4, e5]
         exact this
       split
       · exact hfail _ rfl rfl rfl rfl rfl
@@ -545,18 +552,25 @@ theorem step_sound_inv {s : State} (h : Inv s) (i : Nat) : Inv (step .sound s i)
           · have := InvC.leaveHs h ht hpc { t with pc := .saved, cid := s.nextCid + 1 } rfl rfl (Or.inr rfl)
               (upd s.bound t.dir (ins t.addr)) (leave_save_len _ _ _ _ hm) (leave_save_cnt _ _ _ _ hm)
             simp only [Inv, setThread, release_cfg, release_threads, release_bound, release_lock,
-              release_pend_sound]
+              release_pend]
             exact this
     | saved =>
       simp only []
       have h1 := (InvC.finish h ht (Or.inr hpc) { t with pc := .closed } rfl rfl rfl).shrinkBound
         (upd s.bound t.dir (del t.addr)) (close_len _ _ _) (close_cnt _ _ _)
+      simp only [Inv, setPc, setThread, removePeer_cfg, removePeer_threads, removePeer_pend, removePeer_lock,
+        removePeer_bound]
+      exact h1
+    | closed =>
+      simp only []
       split
-      · exact h1
-      · split
-        · exact h1
-        · exact h1
-    | closed => exact h
+      · exact h
+      · cases v with
+        | sound => exact h
+        | asShipped =>
+          -- a stale Close() only removes: the counters can only go down
+          simp only [Inv, removePeer_cfg, removePeer_threads, removePeer_pend, removePeer_lock, removePeer_bound]
+          exact InvC.shrinkBound h _ (close_len _ _ _) (close_cnt _ _ _)
 
 
 theorem step_cfg (v : Variant) (s : State) (i : Nat) : (step v s i).cfg = s.cfg := by
@@ -579,10 +593,10 @@ theorem inv_init (cfg : Cfg) (ths : List Thread) (h : ∀ t ∈ ths, t.pc = .sta
   · intro i j t u hi _ _ hpc; simp [init] at hi; rw [hstart i t hi] at hpc; cases hpc
   · intro i t hi hpc; simp [init] at hi; rw [hstart i t hi] at hpc; cases hpc
 
-theorem run_sound_inv {s : State} (h : Inv s) (sched : List Nat) : Inv (run .sound s sched) := by
+theorem run_inv (v : Variant) {s : State} (h : Inv s) (sched : List Nat) : Inv (run v s sched) := by
   induction sched generalizing s with
   | nil => exact h
-  | cons i r ih => exact ih (step_sound_inv h i)
+  | cons i r ih => exact ih (step_inv v h i)
 
 /-- established + reserved ≤ limit, for every direction and every remote ip -/
 theorem Inv.reserved_le {s : State} (h : Inv s) :
@@ -746,15 +760,15 @@ theorem InvE.close (e : InvE ths b) (ht : ths[i]? = some t) (hpc : t.pc = .saved
     · exact anti u (e.fb j u hj hup)
 
 
-theorem check_sound_none_bound {s : State} {t : Thread} (h : check .sound s t = none) :
+theorem check_none_bound {s : State} {t : Thread} (h : check s t = none) :
     t.addr ∉ s.bound t.dir := by
   unfold check at h
   split at h; · cases h
   next h1 =>
   simp only [hasAddr, Bool.or_eq_true, decide_eq_true_eq, not_or] at h1
   cases t.dir
-  · exact h1.1.1.1
-  · exact h1.1.1.2
+  · exact h1.1.1.1.1
+  · exact h1.1.1.1.2
 
 def InvF (s : State) : Prop := Inv s ∧ InvE s.threads s.bound
 
@@ -776,7 +790,7 @@ theorem step_sound_invE {s : State} (h : Inv s) (e : InvE s.threads s.bound) (i 
           · exact e.move ht { t with pc := .closed } rfl rfl (by simp) (by simp) (by simp)
           · next hc =>
             exact e.move ht { t with pc := .checked } rfl rfl (by simp) (by simp)
-              (fun _ => check_sound_none_bound hc)
+              (fun _ => check_none_bound hc)
     | checked =>
       simp only []
       have hfb := e.fb i t ht hpc
@@ -792,8 +806,8 @@ theorem step_sound_invE {s : State} (h : Inv s) (e : InvE s.threads s.bound) (i 
     | handshaking =>
       simp only []
       have hfail : ∀ s0 : State, s0.threads = s.threads → s0.bound = s.bound →
-          InvE (setPc (release .sound s0 t.dir t.addr) i t .closed).threads
-            (setPc (release .sound s0 t.dir t.addr) i t .closed).bound := by
+          InvE (setPc (release s0 t.dir t.addr) i t .closed).threads
+            (setPc (release s0 t.dir t.addr) i t .closed).bound := by
         intro s0 e2 e3
         simp only [setPc, setThread, release_threads, release_bound, e2, e3]
         exact e.move ht { t with pc := .closed } rfl rfl (by simp) (by simp) (by simp)
@@ -809,12 +823,12 @@ theorem step_sound_invE {s : State} (h : Inv s) (e : InvE s.threads s.bound) (i 
     | saved =>
       simp only []
       have h1 := e.close ht hpc { t with pc := .closed } rfl
-      split
-      · exact h1
-      · split
-        · exact h1
-        · exact h1
-    | closed => exact e
+      simp only [setPc, setThread, removePeer_threads, removePeer_bound]
+      exact h1
+    | closed =>
+      -- `.sound`: a repeated Close() of a stale handle does nothing
+      simp only []
+      split <;> exact e
 
 theorem invE_init (cfg : Cfg) (ths : List Thread) (h : ∀ t ∈ ths, t.pc = .start) :
     InvE (init cfg ths).threads (init cfg ths).bound := by
@@ -827,7 +841,7 @@ theorem invE_init (cfg : Cfg) (ths : List Thread) (h : ∀ t ∈ ths, t.pc = .st
   · intro i t hi hpc; simp [init] at hi; rw [hstart i t hi] at hpc; cases hpc
 
 theorem step_sound_invF {s : State} (h : InvF s) (i : Nat) : InvF (step .sound s i) :=
-  ⟨step_sound_inv h.1 i, step_sound_invE h.1 h.2 i⟩
+  ⟨step_inv .sound h.1 i, step_sound_invE h.1 h.2 i⟩
 
 theorem run_sound_invF {s : State} (h : InvF s) (sched : List Nat) : InvF (run .sound s sched) := by
   induction sched generalizing s with
@@ -859,228 +873,30 @@ theorem InvE.establishedIp_le {s : State} (e : InvE s.threads s.bound) (ip : Nat
     simp only [decide_eq_true_eq] at hp hq
     exact e.su i j t u hi hj hij hp.2.1 hq.2.1 (hp.1.trans hq.1.symm)
 
-/-! ### The shipped controller is correct when connection attempts do not overlap -/
 
-theorem filter_length_set (P : Thread → Bool) :
-    ∀ {ths : List Thread} {i : Nat} {t : Thread}, ths[i]? = some t → ∀ t' : Thread,
-      ((ths.set i t').filter P).length + (if P t then 1 else 0) = (ths.filter P).length + (if P t' then 1 else 0)
-  | [], _, _, h, _ => by simp at h
-  | x :: r, 0, t, h, t' => by
-    simp at h; subst h
-    simp only [List.set_cons_zero, List.filter_cons]
-    cases P x <;> cases P t' <;> simp <;> omega
-  | x :: r, i + 1, t, h, t' => by
-    have ih := filter_length_set P (ths := r) (i := i) (t := t) (by simpa using h) t'
-    simp only [List.set_cons_succ, List.filter_cons]
-    cases P x <;> simp <;> omega
+/-! ### Without a repeated `Close()` the two variants are the same controller -/
 
-theorem filter_length_le_of_imp (P Q : Thread → Bool) (h : ∀ t, P t = true → Q t = true) :
-    ∀ ths : List Thread, (ths.filter P).length ≤ (ths.filter Q).length
-  | [] => by simp
-  | x :: r => by
-    have ih := filter_length_le_of_imp P Q h r
-    simp only [List.filter_cons]
-    cases hp : P x
-    · cases Q x <;> simp <;> omega
-    · simp [h x hp]; omega
-
-theorem inFlightIp_le (s : State) (ip : Nat) : inFlightIp s ip ≤ inFlight s .inb := by
-  unfold inFlightIp inFlight
-  apply filter_length_le_of_imp
-  intro t ht
-  simp only [decide_eq_true_eq] at ht ⊢
-  exact ⟨ht.1, ht.2.2⟩
-
-
-/-- thread-level contribution to `inFlight` / `inFlightIp` -/
-def fl (d : Dir) (t : Thread) : Nat := if t.dir = d ∧ (t.pc = .checked ∨ t.pc = .handshaking) then 1 else 0
-def fli (ip : Nat) (t : Thread) : Nat :=
-  if t.dir = .inb ∧ t.ip = ip ∧ (t.pc = .checked ∨ t.pc = .handshaking) then 1 else 0
-
-/-- invariant of the shipped controller along runs without overlapping attempts:
-established + in-flight ≤ limit -/
-def InvK (s : State) : Prop :=
-  (∀ d, (s.bound d).length + inFlight s d ≤ s.cfg.max d) ∧
-  (∀ ip, cnt ip (s.bound .inb) + inFlightIp s ip ≤ s.cfg.maxIp)
-
-theorem inFlight_set {s : State} {i : Nat} {t : Thread} (ht : s.threads[i]? = some t) (t' : Thread) (d : Dir)
-    (s' : State) (hs : s'.threads = s.threads.set i t') :
-    inFlight s' d + fl d t = inFlight s d + fl d t' := by
-  unfold inFlight fl
-  rw [hs]
-  have := filter_length_set (fun t => decide (t.dir = d ∧ (t.pc = .checked ∨ t.pc = .handshaking))) ht t'
-  simp only [decide_eq_true_eq] at this
-  exact this
-
-theorem inFlightIp_set {s : State} {i : Nat} {t : Thread} (ht : s.threads[i]? = some t) (t' : Thread) (ip : Nat)
-    (s' : State) (hs : s'.threads = s.threads.set i t') :
-    inFlightIp s' ip + fli ip t = inFlightIp s ip + fli ip t' := by
-  unfold inFlightIp fli
-  rw [hs]
-  have := filter_length_set
-    (fun t => decide (t.dir = .inb ∧ t.ip = ip ∧ (t.pc = .checked ∨ t.pc = .handshaking))) ht t'
-  simp only [decide_eq_true_eq] at this
-  exact this
-
-/-- a step that does not put a new attempt in flight -/
-theorem InvK.gen {s s' : State} (k : InvK s) {i : Nat} {t : Thread} (ht : s.threads[i]? = some t) (t' : Thread)
-    (hc : s'.cfg = s.cfg) (hs : s'.threads = s.threads.set i t')
-    (hlen : ∀ d, (s'.bound d).length + fl d t' ≤ (s.bound d).length + fl d t)
-    (hcnt : ∀ ip, cnt ip (s'.bound .inb) + fli ip t' ≤ cnt ip (s.bound .inb) + fli ip t) : InvK s' := by
-  refine ⟨fun d => ?_, fun ip => ?_⟩
-  · have := k.1 d; have := inFlight_set ht t' d s' hs; have := hlen d; rw [hc]; omega
-  · have := k.2 ip; have := inFlightIp_set ht t' ip s' hs; have := hcnt ip; rw [hc]; omega
-
-theorem check_asShipped_none {s : State} {t : Thread} (h : check .asShipped s t = none) :
-    (s.bound t.dir).length < s.cfg.max t.dir ∧ (t.dir = .inb → cnt t.ip (s.bound .inb) < s.cfg.maxIp) := by
-  unfold check at h
-  split at h; · cases h
-  split at h; · cases h
-  split at h; · cases h
-  split at h; · cases h
-  next _ _ h3 h4 =>
-  simp only [slots, ipSlots, ge_iff_le, Nat.not_le, not_and] at h3 h4
-  exact ⟨h3, h4⟩
-
-theorem step_asShipped_invK {s : State} (k : InvK s) (i : Nat) (hno : NoOverlap (step .asShipped s i)) :
-    InvK (step .asShipped s i) := by
-  unfold step stepR at hno ⊢
+theorem step_eq_of_not_stale {s : State} {i : Nat} (h : staleStep s i = false) :
+    step .asShipped s i = step .sound s i := by
+  unfold step stepR
+  unfold staleStep at h
   cases ht : s.threads[i]? with
-  | none => exact k
+  | none => rfl
   | some t =>
-    simp only [ht] at hno
+    rw [ht] at h
     simp only []
-    cases hpc : t.pc with
-    | start =>
-      simp only [hpc] at hno
-      simp only []
-      split
-      · exact k.gen ht { t with pc := .closed } rfl rfl (by intro d; simp [fl, setPc, setThread]) (by intro ip; simp [fli, setPc, setThread])
-      · next hr =>
-        simp only [hr] at hno
-        split
-        · exact k.gen ht { t with pc := .closed } rfl rfl (by intro d; simp [fl, setPc, setThread]) (by intro ip; simp [fli, setPc, setThread])
-        · next hc =>
-          simp only [hc] at hno
-          have hno : NoOverlap (setPc s i t .checked) := by simpa using hno
-          show InvK (setPc s i t .checked)
-          obtain ⟨c1, c2⟩ := check_asShipped_none hc
-          -- the thread enters flight: nobody else of its direction is in flight
-          have hfl : ∀ d, inFlight (setPc s i t .checked) d + fl d t = inFlight s d + fl d { t with pc := .checked } :=
-            fun d => inFlight_set ht _ d _ rfl
-          have hfli : ∀ ip, inFlightIp (setPc s i t .checked) ip + fli ip t
-              = inFlightIp s ip + fli ip { t with pc := .checked } :=
-            fun ip => inFlightIp_set ht _ ip _ rfl
-          have h0 : fl t.dir t = 0 := by simp [fl, hpc]
-          have h1 : fl t.dir { t with pc := .checked } = 1 := by simp [fl]
-          have hz : inFlight s t.dir = 0 := by have := hno t.dir; have := hfl t.dir; omega
-          refine ⟨fun d => ?_, fun ip => ?_⟩
-          · have := k.1 d; have := hfl d
-            by_cases e : t.dir = d
-            · subst e; show (s.bound t.dir).length + _ ≤ s.cfg.max t.dir; omega
-            · have a1 : fl d t = 0 := by simp [fl, e]
-              have a2 : fl d { t with pc := .checked } = 0 := by simp [fl, e]
-              show (s.bound d).length + _ ≤ s.cfg.max d; omega
-          · have := k.2 ip; have := hfli ip
-            by_cases e : t.dir = .inb ∧ t.ip = ip
-            · obtain ⟨e1, e2⟩ := e
-              have := c2 e1
-              have := inFlightIp_le s ip
-              rw [e1] at hz
-              have a1 : fli ip t = 0 := by simp [fli, hpc]
-              have a2 : fli ip { t with pc := .checked } = 1 := by simp [fli, e1, e2]
-              subst e2
-              show cnt t.ip (s.bound .inb) + _ ≤ s.cfg.maxIp; omega
-            · have a1 : fli ip t = 0 := by simp [fli, hpc]
-              have a2 : fli ip { t with pc := .checked } = 0 := by
-                simp only [fli]; rw [if_neg]; intro x; exact e ⟨x.1, x.2.1⟩
-              show cnt ip (s.bound .inb) + _ ≤ s.cfg.maxIp; omega
-    | checked =>
-      simp only []
-      cases hd : t.dir with
-      | inb =>
-        simp only []
-        exact k.gen ht { t with pc := .handshaking } rfl rfl (by intro d; simp [fl, hpc, setPc, setThread]) (by intro ip; simp [fli, hpc, setPc, setThread])
-      | outb =>
-        simp only []
-        split
-        · exact k.gen ht { t with pc := .closed } rfl rfl (by intro d; simp [fl, setPc, setThread]) (by intro ip; simp [fli, setPc, setThread])
-        · exact k.gen ht { t with pc := .handshaking } rfl rfl (by intro d; simp [fl, hpc, setPc, setThread])
-            (by intro ip; simp [fli, hpc, setPc, setThread])
-    | handshaking =>
-      simp only []
-      have hfail : ∀ s0 : State, s0.cfg = s.cfg → s0.threads = s.threads → s0.bound = s.bound →
-          InvK (setPc (release .asShipped s0 t.dir t.addr) i t .closed) := by
-        intro s0 e1 e2 e3
-        refine k.gen ht { t with pc := .closed } ?_ ?_ ?_ ?_
-        · simp [setPc, setThread, e1]
-        · simp [setPc, setThread, e2]
-        · intro d; simp [setPc, setThread, e3, fl]
-        · intro ip; simp [setPc, setThread, e3, fli]
-      split
-      · exact hfail _ rfl rfl rfl
-      · exact hfail _ rfl rfl rfl
-      · split
-        · exact hfail _ rfl rfl rfl
-        · split
-          · exact hfail _ rfl rfl rfl
-          · refine k.gen ht { t with pc := .saved, cid := s.nextCid + 1 } ?_ ?_ ?_ ?_
-            · simp [setThread]
-            · simp [setThread]
-            · intro d
-              simp only [setThread, release_bound, fl, hpc]
-              by_cases e : d = t.dir
-              · subst e; rw [upd_same]; have := length_ins_le t.addr (s.bound t.dir); simp; omega
-              · rw [upd_other _ e]; simp
-            · intro ip
-              simp only [setThread, release_bound, fli, hpc]
-              by_cases e : Dir.inb = t.dir
-              · rw [← e, upd_same]
-                have := cnt_ins_le' ip t (s.bound .inb)
-                by_cases e2 : t.ip = ip
-                · simp [e2] at this ⊢; omega
-                · simp [e2] at this ⊢; omega
-              · rw [upd_other _ e]; simp
-    | saved =>
-      simp only []
-      have h1 : ∀ s0 : State, s0.cfg = s.cfg → s0.threads = s.threads →
-          s0.bound = upd s.bound t.dir (del t.addr) → InvK (setPc s0 i t .closed) := by
-        intro s0 e1 e2 e3
-        refine k.gen ht { t with pc := .closed } ?_ ?_ ?_ ?_
-        · simp [setPc, setThread, e1]
-        · simp [setPc, setThread, e2]
-        · intro d; simp only [setPc, setThread, e3, fl, hpc]; have := close_len s.bound t.dir t.addr d; simp; omega
-        · intro ip; simp only [setPc, setThread, e3, fli, hpc]; have := close_cnt s.bound t.dir t.addr ip; simp; omega
-      split
-      · exact h1 _ rfl rfl rfl
-      · split
-        · exact h1 _ rfl rfl rfl
-        · exact h1 _ rfl rfl rfl
-    | closed => exact k
+    cases hpc : t.pc <;> simp only []
+    -- only the `closed` case mentions the variant
+    simp only [hpc, decide_eq_false_iff_not, not_and, true_implies, Decidable.not_not] at h
+    simp [h]
 
-
-theorem invK_init (cfg : Cfg) (ths : List Thread) (h : ∀ t ∈ ths, t.pc = .start) : InvK (init cfg ths) := by
-  have z1 : ∀ d, inFlight (init cfg ths) d = 0 := by
-    intro d
-    unfold inFlight
-    rw [List.length_eq_zero_iff, List.filter_eq_nil_iff]
-    intro t ht
-    simp [init] at ht
-    simp [h t ht]
-  have z2 : ∀ ip, inFlightIp (init cfg ths) ip = 0 := by
-    intro ip; have := inFlightIp_le (init cfg ths) ip; have := z1 .inb; omega
-  refine ⟨fun d => ?_, fun ip => ?_⟩
-  · rw [z1]; simp [init]
-  · rw [z2]; simp [init, cnt]
-
-theorem run_asShipped_invK {s : State} (k : InvK s) (sched : List Nat) (hno : NoOverlapRun .asShipped s sched) :
-    InvK (run .asShipped s sched) := by
+theorem run_eq_of_staleFree {s : State} {sched : List Nat} (h : StaleFreeRun .asShipped s sched) :
+    run .asShipped s sched = run .sound s sched := by
   induction sched generalizing s with
-  | nil => exact k
-  | cons i r ih => exact ih (step_asShipped_invK k i hno.1) hno.2
-
-theorem InvK.limits {s : State} (k : InvK s) : LimitsHold s :=
-  ⟨by have := k.1 .inb; simp only [Cfg.max] at this; omega, fun ip => by have := k.2 ip; omega,
-    by have := k.1 .outb; simp only [Cfg.max] at this; omega⟩
+  | nil => rfl
+  | cons i r ih =>
+    show run .asShipped (step .asShipped s i) r = run .sound (step .sound s i) r
+    rw [← step_eq_of_not_stale h.1]
+    exact ih h.2
 
 end OntVerif.Proofs.ConnCtl
